@@ -181,6 +181,18 @@ func streamCorpus() []CFrame {
 			add(base+".level4", m, 1)
 		}
 	}
+	// a CONNACK / CONNECT that announce a small Maximum Packet Size (a
+	// decoder may remember it and judge later frames by it), and a valid
+	// frame of a few kilobytes (bodies read in steps)
+	for _, mps := range []uint32{1, 20, 128} {
+		ck := minimalPacket(2)
+		ck.Props = []spec.Prop{{ID: 0x27, N: mps}}
+		add(fmt.Sprintf("connack.maxpacketsize=%d", mps), mustEncode(ck, spec.Form{}), 2)
+	}
+	cn := minimalPacket(1)
+	cn.Props = []spec.Prop{{ID: 0x27, N: 20}}
+	add("connect.maxpacketsize=20", mustEncode(cn, spec.Form{}), 1)
+	add("publish.3000B", mustEncode(&spec.Packet{Type: 3, Flags: 2, PacketID: 9, Topic: []byte("a/b"), Payload: gen.Content('L', 3000)}, spec.Form{}), 3)
 	add("pingreq.overlong-rl5", unhex("c08080808000"), 12)
 	add("connack.overlong-rl5", append([]byte{ca[0], ca[1] | 0x80, 0x80, 0x80, 0x80, 0x00}, ca[2:]...), 2)
 	add("publish.overlong-rl5", append([]byte{pb[0], pb[1] | 0x80, 0x80, 0x80, 0x80, 0x00}, pb[2:]...), 3)
